@@ -61,6 +61,16 @@ TWINS = [
        "        X = check_array(X, dtype=\"numeric\", accept_sparse=False)\n        X = validate_data(self, X, accept_sparse=True, dtype=np.float64, ensure_min_samples=self.n_clusters)")]),
     ("mmd-floor-plus-zero", "gemclus/gemini/_geomdistances.py",
      [("            delta = np.sqrt(np.maximum(a + c - 2 * b, 0))", "            delta = np.sqrt(np.maximum(a + c - 2 * b, 0.0))")]),
+    ("kl-entropies-refactored", "gemclus/gemini/_fdivergences.py",
+     [("        cluster_entropy = np.sum(p_y * log_p_y)\n        prediction_entropy = np.sum(np.mean(p_y_x * log_p_y_x, axis=0))",
+       "        cluster_entropy = (p_y * np.log(p_y)).sum()\n        prediction_entropy = np.mean(np.sum(p_y_x * np.log(p_y_x), axis=1))")]),
+    ("hellinger-sqrt-split", "gemclus/gemini/_fdivergences.py", [("        cluster_wise_estimates = np.sqrt(p_y_x * p_y)", "        cluster_wise_estimates = np.sqrt(p_y_x) * np.sqrt(p_y)")]),
+    ("mmd-ova-grad-centred-by-mean", "gemclus/gemini/_geomdistances.py",
+     [("                tau_grad = (np.eye(N) - 1 / N) @ normalised_kernel @ (alpha - 1)", "                inner = normalised_kernel @ (alpha - 1)\n                tau_grad = inner - inner.mean(0, keepdims=True)")]),
+    ("tv-ova-difference-negated-twice", "gemclus/gemini/_fdivergences.py", [("            difference = p_y_x - p_y\n", "            difference = -(p_y - p_y_x)\n")]),
+    ("kl-ovo-gradient-without-constant", "gemclus/gemini/_fdivergences.py", [("(log_p_y_x + 1) / log_p_y_x.shape[0] - (p_y / p_y_x", "(log_p_y_x) / log_p_y_x.shape[0] - (p_y / p_y_x")]),
+    ("chi2-ova-rewritten", "gemclus/gemini/_fdivergences.py", [("            chi2_gemini = np.sum(p_y_x*cluster_wise_estimates, axis=1).mean()", "            chi2_gemini = np.mean(np.square(p_y_x) / p_y, axis=0).sum()")]),
+    ("wasserstein-ova-weights", "gemclus/gemini/_geomdistances.py", [("            constant_weights = np.ones(N) / N", "            constant_weights = np.ones(N) * (1 / N)")]),
     ("get-gemini-local", "gemclus/mlp/_mlp_geminis.py",
      [("        return MMDGEMINI(ovo=self.ovo, kernel=self.kernel, kernel_params=self.kernel_params)", "        return MMDGEMINI(kernel=self.kernel, ovo=self.ovo, kernel_params=self.kernel_params)")]),
 ]
